@@ -12,6 +12,7 @@ expression at its uses (`PHASE = "version"` ... `add_message(PHASE, x)`), and `N
 `NEW.search(x)` by `re.search(P, x)`.  Whatever cannot be transformed under the stated conditions is left as it is.
 """
 import ast
+from .astutil import clone
 import copy
 
 from .canon import _units, _is_doc
@@ -121,7 +122,7 @@ class _Subst(ast.NodeTransformer):
         new_args = []
         for a in node.args:
             if isinstance(a, ast.Starred) and isinstance(a.value, ast.Name) and ("*" + a.value.id) in self.m:
-                new_args.extend(copy.deepcopy(x) for x in self.m["*" + a.value.id])
+                new_args.extend(clone(x) for x in self.m["*" + a.value.id])
             else:
                 new_args.append(a)
         node.args = new_args
@@ -129,7 +130,7 @@ class _Subst(ast.NodeTransformer):
 
     def visit_Name(self, node):
         if node.id in self.m and isinstance(node.ctx, ast.Load):
-            return copy.deepcopy(self.m[node.id])
+            return clone(self.m[node.id])
         return node
 
 
@@ -198,8 +199,8 @@ def _eliminate_returns(stmts, cont):
             rest = stmts[i + 1:]
             body_ret = _ends_in_return(st.body)
             else_ret = _ends_in_return(st.orelse) if st.orelse else False
-            nb = _eliminate_returns(st.body + ([] if body_ret else copy.deepcopy(rest)), cont) if True else None
-            ne = _eliminate_returns((st.orelse or []) + ([] if else_ret else copy.deepcopy(rest)), cont)
+            nb = _eliminate_returns(st.body + ([] if body_ret else clone(rest)), cont) if True else None
+            ne = _eliminate_returns((st.orelse or []) + ([] if else_ret else clone(rest)), cont)
             if nb is None or ne is None:
                 return None
             new_if = ast.If(test=st.test, body=nb or [ast.Pass()], orelse=ne)
@@ -273,7 +274,7 @@ def _expansion(fn, call, is_method, caller, context, target=None):
     binding = _bind_args(fn, call, is_method)
     if binding is None:
         return None
-    body = copy.deepcopy(fn.body)
+    body = clone(fn.body)
     if body and _is_doc(body[0]):
         body = body[1:]
     if not body:
@@ -305,7 +306,7 @@ def _expansion(fn, call, is_method, caller, context, target=None):
         if _simple(a) and p2 not in assigned and not any(isinstance(n, ast.Name) and n.id in assigned for n in ast.walk(a)):
             sub[p2] = a
         else:
-            asg = ast.Assign(targets=[ast.Name(id=p2, ctx=ast.Store())], value=copy.deepcopy(a))
+            asg = ast.Assign(targets=[ast.Name(id=p2, ctx=ast.Store())], value=clone(a))
             ast.copy_location(asg, call)
             pre.append(asg)
     if sub:
@@ -322,7 +323,7 @@ def _expansion(fn, call, is_method, caller, context, target=None):
                 v = e if e is not None else ast.Constant(value=None)
                 if isinstance(v, ast.Name) and isinstance(target, ast.Name) and v.id == target.id:
                     return []
-                a = ast.Assign(targets=[copy.deepcopy(target)], value=v)
+                a = ast.Assign(targets=[clone(target)], value=v)
                 ast.copy_location(a, call)
                 return [a]
             if e is not None and _has_call(e):
@@ -353,7 +354,7 @@ def _expr_helper(fn):
         names = [st.targets[0].id for st in body[:-1]]
         params = {a.arg for a in fn.args.args}
         if len(set(names)) == len(names) and not (set(names) & params):
-            e = copy.deepcopy(body[-1].value)
+            e = clone(body[-1].value)
             for st in reversed(body[:-1]):
                 n = st.targets[0].id
                 later = [e] + [x.value for x in body[body.index(st) + 1:-1]]
@@ -491,7 +492,7 @@ def _inline_into(caller, helper, hname, is_method, clsname):
                 if _call_matches(node, hname, is_method, clsname):
                     binding = _bind_args(helper, node, is_method)
                     if binding is not None and all(p.startswith("*") or _simple(a) or _count_uses(expr_e, p) <= 1 for p, a in binding):
-                        e = copy.deepcopy(expr_e)
+                        e = clone(expr_e)
                         e = _Subst({p: a for p, a in binding}).visit(e)
                         ast.copy_location(e, node)
                         ast.fix_missing_locations(e)
@@ -687,7 +688,7 @@ def inline_new_constants(asts, ref):
     for _ in range(4):
         for (rel, name), v in list(new_consts.items()):
             m = {n: e for (r, n), e in new_consts.items() if r == rel and n != name and not _is_re_compile(e)}
-            new_consts[(rel, name)] = _Subst(m).visit(copy.deepcopy(v))
+            new_consts[(rel, name)] = _Subst(m).visit(clone(v))
     for rel, mod in asts.items():
         local = {n: e for (r, n), e in new_consts.items() if r == rel}
         # imported new constants:  from ._hints import DIRECT_TCP_V1
@@ -711,7 +712,7 @@ def inline_new_constants(asts, ref):
                         and f.attr in ("search", "match", "fullmatch", "findall", "sub", "split"):
                     comp = regex[f.value.id]
                     new = ast.Call(func=ast.Attribute(value=ast.Name(id="re", ctx=ast.Load()), attr=f.attr, ctx=ast.Load()),
-                                   args=[copy.deepcopy(a) for a in comp.args] + node.args, keywords=node.keywords)
+                                   args=[clone(a) for a in comp.args] + node.args, keywords=node.keywords)
                     ast.copy_location(new, node)
                     ast.fix_missing_locations(new)
                     count[0] += 1
@@ -720,7 +721,7 @@ def inline_new_constants(asts, ref):
 
             def visit_Name(self, node):
                 if isinstance(node.ctx, ast.Load) and node.id in plain:
-                    new = copy.deepcopy(plain[node.id])
+                    new = clone(plain[node.id])
                     ast.copy_location(new, node)
                     ast.fix_missing_locations(new)
                     count[0] += 1
@@ -818,7 +819,7 @@ def unroll_literal_loops(asts, ref):
                                 vals = [e] if isinstance(st.target, ast.Name) else list(e.elts)
                                 m = dict(zip(tnames, vals))
                                 for b in st.body:
-                                    nb = copy.deepcopy(b)
+                                    nb = clone(b)
                                     if private and len(st.iter.elts) > 1:
                                         for x in ast.walk(nb):
                                             if isinstance(x, ast.Name) and x.id in private:
@@ -861,7 +862,7 @@ def _touches(stmts, expr):
 
 
 def _load(e):
-    e = copy.deepcopy(e)
+    e = clone(e)
     for n in ast.walk(e):
         if hasattr(n, "ctx"):
             n.ctx = ast.Load()
@@ -964,7 +965,7 @@ def _norm_block(lst, fn):
                                for b in between for x in ast.walk(b)):
                         src = "via-local"
             if src:
-                new = ast.AugAssign(target=copy.deepcopy(t), op=st.value.op, value=st.value.right)
+                new = ast.AugAssign(target=clone(t), op=st.value.op, value=st.value.right)
                 ast.copy_location(new, st)
                 ast.fix_missing_locations(new)
                 lst[i] = new
@@ -1020,10 +1021,10 @@ def _norm_block(lst, fn):
                 if isinstance(d, ast.Delete) and len(d.targets) == 1 and _same(_load(d.targets[0]), st.value):
                     between = lst[i + 1:j]
                     if not _touches(between, st.value.value):
-                        call = ast.Call(func=ast.Attribute(value=copy.deepcopy(st.value.value), attr="pop", ctx=ast.Load()),
-                                        args=[copy.deepcopy(st.value.slice)], keywords=[])
+                        call = ast.Call(func=ast.Attribute(value=clone(st.value.value), attr="pop", ctx=ast.Load()),
+                                        args=[clone(st.value.slice)], keywords=[])
                         if _is_deque_attr(fn, st.value.value) and isinstance(st.value.slice, ast.Constant) and st.value.slice.value == 0:
-                            call = ast.Call(func=ast.Attribute(value=copy.deepcopy(st.value.value), attr="popleft", ctx=ast.Load()),
+                            call = ast.Call(func=ast.Attribute(value=clone(st.value.value), attr="popleft", ctx=ast.Load()),
                                             args=[], keywords=[])
                         st.value = call
                         ast.fix_missing_locations(st)
@@ -1045,8 +1046,8 @@ def _norm_block(lst, fn):
             d = st.body[0]
             if len(d.targets) == 1 and isinstance(d.targets[0], ast.Subscript) and _same(_load(d.targets[0].value), st.test.comparators[0]) \
                     and _same(_load(d.targets[0].slice), st.test.left):
-                call = ast.Expr(value=ast.Call(func=ast.Attribute(value=copy.deepcopy(st.test.comparators[0]), attr="pop", ctx=ast.Load()),
-                                               args=[copy.deepcopy(st.test.left), ast.Constant(value=None)], keywords=[]))
+                call = ast.Expr(value=ast.Call(func=ast.Attribute(value=clone(st.test.comparators[0]), attr="pop", ctx=ast.Load()),
+                                               args=[clone(st.test.left), ast.Constant(value=None)], keywords=[]))
                 ast.copy_location(call, st)
                 ast.fix_missing_locations(call)
                 lst[i] = call
@@ -1065,7 +1066,7 @@ def _norm_block(lst, fn):
                     and _is_private_sentinel(fn, a0.value.args[1].id) \
                     and not any(isinstance(x, ast.Break) and _loop_of(x, st) for b in st.body[2:] for x in ast.walk(b)):
                 key = a0.value.args[0]
-                st.test = ast.Compare(left=copy.deepcopy(key), ops=[ast.In()], comparators=[copy.deepcopy(a0.value.func.value)])
+                st.test = ast.Compare(left=clone(key), ops=[ast.In()], comparators=[clone(a0.value.func.value)])
                 a0.value.args = [key]
                 st.body = [a0] + st.body[2:]
                 ast.fix_missing_locations(st)
@@ -1124,7 +1125,7 @@ def _norm_block(lst, fn):
             if safe:
                 new = []
                 for t, v in zip(st.targets[0].elts, st.value.elts):
-                    t2 = copy.deepcopy(t)
+                    t2 = clone(t)
                     for x in ast.walk(t2):
                         if hasattr(x, "ctx") and x is t2:
                             x.ctx = ast.Store()
@@ -1155,7 +1156,7 @@ def _norm_block(lst, fn):
             body = [add]
             for cond in reversed(gen.ifs):
                 body = [ast.If(test=cond, body=body, orelse=[])]
-            tgt = copy.deepcopy(gen.target)
+            tgt = clone(gen.target)
             for x in ast.walk(tgt):
                 if hasattr(x, "ctx"):
                     x.ctx = ast.Store()
@@ -1177,7 +1178,7 @@ def _norm_block(lst, fn):
             body = [ast.Expr(value=st.value.elt)]
             for cond in reversed(gen.ifs):
                 body = [ast.If(test=cond, body=body, orelse=[])]
-            tgt = copy.deepcopy(gen.target)
+            tgt = clone(gen.target)
             for x in ast.walk(tgt):
                 if hasattr(x, "ctx"):
                     x.ctx = ast.Store()
@@ -1228,11 +1229,11 @@ def _eliminate_attr_aliases(fn):
                 for x in ast.walk(fn):
                     for field, val in ast.iter_fields(x):
                         if isinstance(val, ast.Name) and val.id == name and isinstance(val.ctx, ast.Load):
-                            setattr(x, field, copy.deepcopy(repl))
+                            setattr(x, field, clone(repl))
                         elif isinstance(val, list):
                             for i, v in enumerate(val):
                                 if isinstance(v, ast.Name) and v.id == name and isinstance(v.ctx, ast.Load):
-                                    val[i] = copy.deepcopy(repl)
+                                    val[i] = clone(repl)
                 lst.remove(st)
                 n += 1
     if n:
@@ -1471,7 +1472,7 @@ def restore_moved_methods(asts, ref):
                 p0 = f.args.args[0].arg
                 if len(f.args.args) != len(rfn.args.args) or any(isinstance(n, ast.Name) and n.id == "self" for n in ast.walk(f)):
                     continue
-                cand = copy.deepcopy(f)
+                cand = clone(f)
                 for n in ast.walk(cand):
                     if isinstance(n, ast.Name) and n.id == p0:
                         n.id = "self"
@@ -1514,7 +1515,7 @@ def restore_moved_methods(asts, ref):
                                     if isinstance(n.value, ast.Name) and n.value.id == "self" and n.attr == a:
                                         return ast.Name(id="self", ctx=ast.Load())
                                     return self.generic_visit(n)
-                            cand = Strip().visit(copy.deepcopy(f))
+                            cand = Strip().visit(clone(f))
                             if _body_dump(cand.body) != want or [x.arg for x in cand.args.args] != [x.arg for x in rfn.args.args]:
                                 continue
                             cand.name = k[2]
@@ -1654,8 +1655,8 @@ def outline_vanished_helpers(asts, ref):
                                 continue
                             recv = ast.Attribute(value=ast.Name(id="self", ctx=ast.Load()), attr=hname, ctx=ast.Load()) if is_method \
                                 else ast.Name(id=hname, ctx=ast.Load())
-                            call = ast.Call(func=recv, args=[copy.deepcopy(sigma[p]) for p in params]
-                                            + ([copy.deepcopy(y) for y in sigma["*" + star]] if star else []), keywords=[])
+                            call = ast.Call(func=recv, args=[clone(sigma[p]) for p in params]
+                                            + ([clone(y) for y in sigma["*" + star]] if star else []), keywords=[])
                             if result_local is not None and result_local in lam:
                                 new = ast.Assign(targets=[ast.Name(id=lam[result_local], ctx=ast.Store())], value=call)
                             elif not value_helper or target_kind[0] == "expr":
